@@ -8,3 +8,4 @@ import LettreVerif.Props.C14
 import LettreVerif.Props.C06
 import LettreVerif.Props.C20
 import LettreVerif.Props.C18
+import LettreVerif.Props.C10
